@@ -138,6 +138,26 @@ func (*DataProcessor).startWindowProcessing$1
   before processWindowBatch a-batch-taken-from-the-window-is-processed-as-it-is: $selected == 0 && $recvok && seqeq($arg1, batch)
   atreturn the-consumer-ends-only-when-stopped-or-the-output-is-closed: $selected == 1 || ($selected == 0 && !$recvok)
 
+extern rewriteQualifiedRefs
+  props C07 C04 C05 C06 C16 C20
+  option pure
+
+// HAVING and every ORDER BY key, whatever its position in the list, are rewritten with the same table of output names
+func (*Stream).rewriteGroupColumnRefs
+  props C07 C04 C05 C06 C16 C20
+  option assumed_frame
+  modifies s.config
+  count rewritten := rewriteQualifiedRefs
+  before rewriteQualifiedRefs the-same-table-of-output-names-is-used-throughout: $arg1 == refs
+  atreturn having-and-every-order-by-key-are-rewritten: $rewritten == ite(len(refs) == 0, 0, 1 + len(old(s.config.OrderBy)))
+  loop 3 invariant $rewritten == 1 + $i && len($s) == len(old(s.config.OrderBy)) && len(refs) != 0
+
+// resetting the statistics resets the four books and nothing else: no window, buffer or pending row is touched
+func (*Stream).ResetStats
+  props C19 C09
+  modifies s.mInput.val, s.mOutput.val, s.mInputDropped.val, s.mOutputDropped.val
+  ensures all-four-books-start-again-from-zero: s.mInput.val == 0 && s.mOutput.val == 0 && s.mInputDropped.val == 0 && s.mOutputDropped.val == 0
+
 func NewDataProcessor
   props C05 C19 C01 C03 C07 C08 C09 C10 C12 C15 C17 C20
   ensures the-processor-serves-the-stream-it-was-built-for: fresh(result) && result.stream == stream
@@ -300,9 +320,19 @@ extern (*Stream).applyWindowAnalytic
   props C07 C05 C06 C12 C13 C14 C15 C16 C19 C20
   modifies allmaps
 
-extern (*DataProcessor).applyDistinct
+pure encoding/json.Marshal
+
+// DISTINCT keeps, in batch order, the first row of every distinct content; a row whose content cannot be compared is kept
+func (*DataProcessor).applyDistinct
   props C07 C01 C03 C05 C08 C09 C10 C12 C15 C17 C20
+  option assumed_frame
   modifies allmaps
+  observe ser := Marshal
+  observe serErr := Marshal#1
+  before Marshal the-row-compared-is-this-row: $arg0 == boxof(result, map[string]any)
+  ensures only-rows-of-the-batch-in-batch-order: forall(j, 0, len(result), exists(k, 0, len(results), result[j] == results[k]))
+  loop 1 invariant forall(j, 0, len(finalResults), exists(k, 0, $i, finalResults[j] == $s[k])) && $s == results
+  loop 1 invariant a-row-that-cannot-be-compared-is-kept: $i > 0 && $serErr != nil ==> len(finalResults) > 0 && finalResults[len(finalResults) - 1] == $s[$i - 1]
 
 extern (*DataProcessor).applyHavingFilter
   props C07 C01 C03 C05 C08 C09 C10 C12 C15 C17 C20
@@ -498,6 +528,23 @@ func (*Stream).expandDataChannel
   loop 1 invariant held(s.dataChanMux) && wheld(s.dataChanMux) && held(s.expansionMux) && s.expanding == 1
   loop 1 invariant ghost(timeouts_migrationTimeout) == old(ghost(timeouts_migrationTimeout)) && ghost(sends) - old(ghost(sends)) == ghost(recvs) - old(ghost(recvs))
   loop 1 invariant newCap > oldCap && (buf.MaxBufferSize > 0 ==> newCap <= buf.MaxBufferSize)
+
+// a strategy is bound to its stream and takes the configuration as it is: initialising it changes no setting of the stream
+// (the expansion ceiling in particular stays what was configured)
+func (*ExpansionStrategy).Init
+  props C19
+  modifies es.stream
+  ensures bound-to-this-stream-and-nothing-else-changed: es.stream == stream && result == nil
+
+func (*BlockingStrategy).Init
+  props C19
+  modifies bs.stream
+  ensures bound-to-this-stream-and-nothing-else-changed: bs.stream == stream && result == nil
+
+func (*DropStrategy).Init
+  props C19
+  modifies ds.stream
+  ensures bound-to-this-stream-and-nothing-else-changed: ds.stream == stream && result == nil
 
 func (*ExpansionStrategy).ProcessData
   props C19
@@ -773,7 +820,6 @@ pred entryOf(fe, k) := unbox(fe.partitions[k].Value, *partitionEntry)
 func (*analyticFieldEngine).getStateLocked
   props C14 C12
   option callbacks_pure
-  requires fe != nil
   modifies fe.noPart, mapof(fe.partitions), mapof(fe.lastResults), heap(list.Element.Value)
   ensures without-partition-by-there-is-one-shared-state: fe.af.Over == nil || len(fe.af.Over.PartitionBy) == 0 ==> seqeq(result, fe.noPart) && (old(fe.noPart) != nil ==> seqeq(fe.noPart, old(fe.noPart)))
   ensures a-known-partition-gets-its-own-state-back: fe.af.Over != nil && len(fe.af.Over.PartitionBy) > 0 && old(dom(fe.partitions, partKey)) ==> seqeq(result, old(entryOf(fe, partKey).states))
@@ -816,9 +862,27 @@ extern (*analyticFieldEngine).applyCall
   modifies *
   ensures the-engines-own-bookkeeping-is-not-touched: fe.lastResults == old(fe.lastResults) && mapUnchanged(fe.lastResults) && fe.whenCond == old(fe.whenCond) && fe.af == old(fe.af)
 
-extern (*analyticFieldEngine).evaluateMultiColumn
+extern analyticColName
   props C14 C12
+  option pure
+
+// changed_cols and its kin: the partition and the WHEN gate are decided by the incoming row itself (not by the columns
+// being watched), the state consulted is the one of the row's own partition, and a row that fails WHEN repeats the
+// partition's last result
+func (*analyticFieldEngine).evaluateMultiColumn
+  props C14 C12
+  requires fe != nil && fe.lastResults != nil
   modifies *
+  observe pk := partitionKey
+  observe w := Evaluate
+  observe applied := ApplyColumns
+  before partitionKey the-partition-is-that-of-the-incoming-row: $arg1 == row
+  before Evaluate when-is-tested-on-the-incoming-row: $arg1 == boxof(row, map[string]any)
+  before getStateLocked state-is-looked-up-under-this-rows-own-partition-key: $arg1 == $pk
+  before getStateLocked rows-failing-when-do-not-advance-the-state: fe.whenCond == nil || $w
+  before ApplyColumns the-watched-columns-of-this-row-are-compared: $arg3 == cols
+  loop 1 invariant true
+  loop 2 invariant true
 
 extern (*analyticFieldEngine).evalWrapper
   props C14 C12
